@@ -415,6 +415,10 @@ def fingerprint(obj):
     d = np.ascontiguousarray(np.asarray(obj.dissimilarities, dtype=float))
     fp = [('shape', d.shape), ('bytes', d.tobytes()), ('n', obj.n_rdm, obj.n_cond),
           ('measure', obj.dissimilarity_measure)]
+    try:    # the square form the object hands out is part of its observable content
+        fp.append(('square', np.ascontiguousarray(np.asarray(obj.get_matrices(), dtype=float)).tobytes()))
+    except Exception as e:  # noqa: BLE001
+        fp.append(('square', 'raises ' + type(e).__name__))
     for name, dd in (('rdm', obj.rdm_descriptors), ('pattern', obj.pattern_descriptors)):
         for k in sorted(dd):
             fp.append((name, k, repr(_norm_list(dd[k]))))
@@ -433,6 +437,8 @@ def fingerprint_diff(a, b):
         if da.get(k) != db.get(k):
             if k == ('bytes',):
                 return 'dissimilarities changed'
+            if k == ('square',):
+                return 'the square form handed out by get_matrices() changed'
             return '%s: %s -> %s' % (k, da.get(k, ('-',))[-1], db.get(k, ('-',))[-1])
     return 'no difference'
 
